@@ -599,6 +599,11 @@ fn expected(st: &ObservableState) -> Vec<(String, Vec<(String, String)>, f64)> {
 }
 
 fn check_response(raw: &[u8], st: &ObservableState, out: &mut CaseOut) {
+    check_response_uptime(raw, st, out, None)
+}
+
+/// `uptime`: None = the uptime of `st` exactly; Some((lo, hi)) = any value in that range (state read at another moment)
+pub fn check_response_uptime(raw: &[u8], st: &ObservableState, out: &mut CaseOut, uptime: Option<(f64, f64)>) {
     let Some(r) = parse_http(raw) else {
         out.fail("exporter response is not well-formed HTTP", String::from_utf8_lossy(&raw[..raw.len().min(200)]).to_string());
         return;
@@ -643,7 +648,12 @@ fn check_response(raw: &[u8], st: &ObservableState, out: &mut CaseOut) {
             out.fail(format!("metric family {} has an unexpected number of samples", f.name), format!("{} vs {}", f.samples.len(), n_exp));
         }
         if f.name == "statime_uptime_seconds" {
-            let ok = f.samples.len() == 1 && approx(f.samples[0].value.parse().unwrap_or(f64::NAN), st.program.uptime_seconds) && f.samples[0].labels.contains(&("build_commit".to_string(), st.program.build_commit.clone()));
+            let up: f64 = f.samples.first().map(|s| s.value.parse().unwrap_or(f64::NAN)).unwrap_or(f64::NAN);
+            let up_ok = match uptime {
+                None => approx(up, st.program.uptime_seconds),
+                Some((lo, hi)) => up >= lo - 1e-6 && up <= hi + 1e-6,
+            };
+            let ok = f.samples.len() == 1 && up_ok && f.samples[0].labels.contains(&("build_commit".to_string(), st.program.build_commit.clone()));
             if !ok {
                 out.fail("uptime metric wrong", format!("{:?}", f.samples));
             }
@@ -727,11 +737,17 @@ pub fn run(ctx: &Ctx) -> i32 {
         println!("INFRASTRUCTURE: {}", e);
         return 2;
     }
+    // stage 4: the real daemon's observation socket (and the exporter behind it), end to end
+    let workers = (ctx.threads as u64 / 2).clamp(2, 8);
+    let sum = crate::daemon::run_part(ctx, &mut rep, ctx.cases(10 * workers, 300 * workers), workers);
+    if let Some(why) = &sum.skipped {
+        println!("note: end-to-end daemon part skipped ({}); the other parts are unaffected", why);
+    }
     finish(
         Finish {
             ctx,
             level: "exploration",
-            rule: "instance states reached in simulation (grandmaster, slave with generated parent contents, boundary clock with 1-3 ports, Faulty P2P ports, measured link delays, path traces of 0..128 identities, every time-properties combination, filter estimates from 0 to +-10 s incl. values whose fixed-point bits exceed 64 bits, random configurations) plus directly generated observable-state JSON over the full field ranges. Stage 1: the ObservableInstanceState assembled as run() does must agree with the configuration, with the Announce a master port emits (independent view of parent/current/time-properties/path-trace data sets), with the port's behaviour and with the slave port's filter estimates. Stage 2: serde_json round trip is byte-identical and field-equal. Stage 3: the exporter binary built from /repo is given the JSON over a Unix socket; the HTTP response must be 200 with matching Content-Length, well-formed exposition format (# EOF last, metadata before contiguous samples, unit suffix), and every sample must equal the value derived from the state under the meaning its metadata states (true = 1, nanoseconds where the unit says nanoseconds). Non-trivial = state other than the start-up state; distinct by JSON.",
+            rule: "instance states reached in simulation (grandmaster, slave with generated parent contents, boundary clock with 1-3 ports, Faulty P2P ports, measured link delays, path traces of 0..128 identities, every time-properties combination, filter estimates from 0 to +-10 s incl. values whose fixed-point bits exceed 64 bits, random configurations) plus directly generated observable-state JSON over the full field ranges. Stage 1: the ObservableInstanceState assembled as run() does must agree with the configuration, with the Announce a master port emits (independent view of parent/current/time-properties/path-trace data sets), with the port's behaviour and with the slave port's filter estimates. Stage 2: serde_json round trip is byte-identical and field-equal. Stage 3: the exporter binary built from /repo is given the JSON over a Unix socket; the HTTP response must be 200 with matching Content-Length, well-formed exposition format (# EOF last, metadata before contiguous samples, unit suffix), and every sample must equal the value derived from the state under the meaning its metadata states (true = 1, nanoseconds where the unit says nanoseconds). Stage 4 (part daemon): the real statime daemon as a two-port boundary clock in a private network namespace; the harness, as the parent, changes what it announces (every content field and flag, always better than the daemon's own data set); after four announce intervals the daemon's observation socket must show exactly that hierarchy, the configured defaultDS and the port states, and the exporter binary reading the same socket must serve that state. Non-trivial = state other than the start-up state; distinct by JSON.",
             assumptions: vec!["stage 3 uses loopback sockets with wall-clock time-outs; a time-out is exit 2, never a violation".into(), "float comparison at relative 1e-9".into()],
             min_nontrivial: 100,
         },
@@ -743,6 +759,7 @@ pub fn replay(ctx: &Ctx, path: &str) -> i32 {
     let s = std::fs::read_to_string(path).expect("read replay");
     let v: serde_json::Value = serde_json::from_str(&s).expect("parse");
     match v["part"].as_str().unwrap_or("inproc") {
+        "daemon" => crate::daemon::replay_part(ctx, path, 3),
         "json" => replay_file(ctx, path, case_json),
         "exporter" => {
             let tape: Vec<u64> = v["tape"].as_array().map(|a| a.iter().filter_map(|x| x.as_u64()).collect()).unwrap_or_default();
